@@ -95,7 +95,13 @@ class D(Driver):
 
     def cases(self, tier, seed):
         n = 24 if tier == "quick" else 300
-        return [("hostile", seed, k, 10) for k in range(n)]
+        cs = [("hostile", seed, k, 10) for k in range(n)]
+        from picomon.gen import hostile as _h
+
+        ne = len(_h.enumerated_cycles())
+        for i in range(0, ne, 8):
+            cs.append(("enumerated", i, min(ne, i + 8), 0))
+        return cs
 
     def setup_worker(self, tier, seed):
         self.strace = shutil.which("strace")
@@ -189,6 +195,10 @@ class D(Driver):
         return None
 
     def run_case(self, case):
+        enumerated = None
+        if case[0] == "enumerated":
+            enumerated = hostile.enumerated_cycles()[case[1]:case[2]]
+            case = ("hostile", "enum", case[1], 0)
         _, seed, k, n = case
         rng = random.Random(f"C17-{seed}-{k}")
         res = new_result()
@@ -200,6 +210,9 @@ class D(Driver):
             with open(os.path.join(canary, name), "w") as f:
                 f.write(f'<!ENTITY leaked "{SECRET}">' if name.endswith("dtd") else SECRET)
         try:
+            for doc, label in enumerated or ():
+                self.judge(res, doc, label, tmp, canary)
+                bump(res["features"], "enumerated_cycle_layouts")
             for i in range(n):
                 if rng.random() < 0.12:
                     doc, f, root, meta = gd.mixed_doc(rng, max_depth=2)
